@@ -123,6 +123,9 @@ func (r *runner) checkLiveFilter(n *Node, w *World, ps *problems) {
 func (r *runner) liveChecks(n *Node, store db.KeyValueStore, w *World, ghost *lib.Bundle, withFilter bool) (problems, string, string) {
 	sc := n.sc
 	ps := checkNode(n.bc, w, ghost, sc.Queries)
+	if sc.Pruning {
+		checkRetention(store, n.bc, w, &ps)
+	}
 	var fps problems
 	if withFilter {
 		r.checkLiveFilter(n, w, &fps)
@@ -181,6 +184,7 @@ func (r *runner) runTwin(sc *Scenario) (*twin, bool) {
 		tw.crash = append(tw.crash, crashPoint{K: idx, Step: cur, Img: image(store)})
 	}
 	n := &Node{sc: sc, fdb: fdb, bc: sc.open(fdb)}
+	stepCommits := make([]int, len(sc.Steps))
 	for i := range sc.Steps {
 		cur = i
 		s := &sc.Steps[i]
@@ -195,6 +199,7 @@ func (r *runner) runTwin(sc *Scenario) (*twin, bool) {
 			return tw, false
 		}
 		nc := fdb.Commits() - before
+		stepCommits[i] = nc
 		r.res.Hit(fmt.Sprintf("commits-per-%s:%d", s.Op, min(nc, 9)))
 		tw.digAfter = append(tw.digAfter, digest(store))
 		tw.looseAfter = append(tw.looseAfter, looseDigest(store))
@@ -211,8 +216,14 @@ func (r *runner) runTwin(sc *Scenario) (*twin, bool) {
 				kk, last = 0, cp.Step
 			}
 			// (a commit inside a kill step is the lazy filter initialisation of the observation
-			// that follows it; the model has no fault position there)
-			if op := sc.Steps[cp.Step].Op; op != "prune" && op != "kill" {
+			// that follows it; the model has no fault position there. The batches of a prune are
+			// compared when the real sweep rotated its batch exactly where the model does.)
+			st := &sc.Steps[cp.Step]
+			if st.Op == "kill" || (st.Op == "prune" && !(st.BatchBytes == 0 && stepCommits[cp.Step] == modelPruneBatches(sc.worldBefore(cp.Step), st))) {
+				if st.Op == "prune" {
+					r.res.Hit("prune-batches-not-compared-with-model")
+				}
+			} else {
 				tw.trace.crash(cp.Step, kk, cp.Img)
 			}
 			kk++
@@ -259,7 +270,10 @@ func (r *runner) checkCrashPoints(sc *Scenario, tw *twin) {
 				ghost = before.Head()
 			}
 		default:
-			// an interrupted prune: everything at or above the target must be intact
+			// an interrupted prune: the image must be that of a prune that stopped at some block F
+			// between the old floor and the target — everything from F on intact, everything below
+			// F gone (checkRetention), the floor read back from the image itself
+			w = midPruneWorld(cp.Img, before, after, func(sig, what string) { r.violate(sc, "crash-"+sig, what, extra) })
 		}
 		r.checkRestartedImage(sc, cp.Img, w, ghost, "crash-", extra)
 		if s.Op == "prune" && d != tw.digAfter[cp.Step] {
@@ -267,6 +281,35 @@ func (r *runner) checkCrashPoints(sc *Scenario, tw *twin) {
 		}
 		r.res.Case(fmt.Sprintf("%s/%d/crash/%d", sc.Name, sc.Seed, cp.K), true)
 	}
+}
+
+// modelPruneBatches: how many batches the model's sweep (threshold 1: a batch is rotated as soon as
+// it holds a point delete; transaction lookups and the hash->number mapping of the block below are
+// the point deletes it knows) writes for this step.
+func modelPruneBatches(before *World, s *Step) int {
+	n := 1
+	for b := before.Floor; b < s.PruneTo && int(b) <= before.Height(); b++ {
+		if b > 0 || len(before.Chain[b].Block.Transactions) > 0 {
+			n++
+		}
+	}
+	return n
+}
+
+// midPruneWorld: the world of an image taken between two batches of a prune (or after a failed
+// batch): the chain of the finished prune with the retention floor the image itself reports.
+func midPruneWorld(store db.KeyValueReader, before, after *World, bad func(sig, what string)) *World {
+	w := *after
+	f, err := pruner.OldestRetainedBlock(store)
+	switch {
+	case err != nil:
+		bad("retention-floor-unreadable", fmt.Sprintf("OldestRetainedBlock on the image of an interrupted prune: %v", err))
+	case f < before.Floor || f > after.Floor:
+		bad("retention-floor-out-of-range", fmt.Sprintf("an interrupted prune from floor %d to %d left OldestRetainedBlock = %d", before.Floor, after.Floor, f))
+	default:
+		w.Floor = f
+	}
+	return &w
 }
 
 // crashAfter returns the image at the end of a step (the last crash point of that step, or of
@@ -323,6 +366,9 @@ func (r *runner) checkRestartedImage(sc *Scenario, img *memory.Database, w *Worl
 	work := img.Copy()
 	bc := sc.open(work)
 	ps := checkNode(bc, w, ghost, sc.Queries)
+	if sc.Pruning {
+		checkRetention(work, bc, w, &ps)
+	}
 	rf, err := restartFilter(img, sc.Pruning)
 	if err != nil {
 		ps.add("running-filter-cannot-initialise", "initialising the running event filter from the image: %v", err)
@@ -340,7 +386,7 @@ func (r *runner) checkRestartedImage(sc *Scenario, img *memory.Database, w *Worl
 func (r *runner) checkPruneResumes(sc *Scenario, cp crashPoint, tw *twin, extra map[string]any) {
 	s := &sc.Steps[cp.Step]
 	work := cp.Img.Copy()
-	_, _, err := pruner.PruneUpto(context.Background(), work, s.PruneTo, pruneBatchBytes)
+	_, _, err := pruner.PruneUpto(context.Background(), work, s.PruneTo, s.batchBytes())
 	if err != nil {
 		r.violate(sc, "prune-cannot-resume-after-crash", fmt.Sprintf("PruneUpto(%d) on the image after commit %d: %v", s.PruneTo, cp.K, err), extra)
 		return
@@ -446,7 +492,7 @@ func (r *runner) runFault(sc *Scenario, tw *twin, k int) {
 			ghost = s.B
 		}
 		if s.Op == "prune" {
-			w = &s.After
+			w = midPruneWorld(store, before, &s.After, func(sig, what string) { ps.add(sig, "%s", what) })
 		}
 		// in-memory filter vs what a restart would build from the surviving disk
 		if mem, err := n.memFilter(); err == nil && (s.Op == "store" || s.Op == "revert") {
